@@ -1236,6 +1236,9 @@ func (s *State) evalArrayInfixExpression(operator token.Type, left, right object
 		if !ok {
 			return s.Errorf("array repeat count %d too large", rightVal)
 		}
+		if n == 0 {
+			return object.NewArray(nil) // nothing to repeat (and no need to loop rightVal times).
+		}
 		result := object.MakeObjectSlice(n)
 		for range rightVal {
 			result = append(result, leftVal...)
